@@ -2,6 +2,7 @@ import Nervus.Driver.Util
 import Nervus.Driver.OKey
 import Nervus.Driver.ExtId
 import Nervus.Driver.Capi
+import Nervus.Driver.Capix
 open Nervus.Driver
 
 /-- stream registry: one line per stream (kept one-per-line so that merges are unions) -/
@@ -9,7 +10,8 @@ def streams : List (String × Stream) := [
   ("okey", OKeyStream.stream),
   ("extid", ExtIdStream.stream),
   ("capi", CapiStream.stream),
-  ("capiryw", CapiStream.streamRyw)
+  ("capiryw", CapiStream.streamRyw),
+  ("capix", CapixStream.stream)
 ]
 
 def main (args : List String) : IO UInt32 := do
